@@ -65,6 +65,39 @@ def run(ctx):
                             exact = True
                 ok = sp_.op == "param" and sp_.a[1] == "value" and B.lin_eq(dl, ("c", 32)) and exact
         ctx.ob("E4.len", ty, ok, "%s::try_from: <[u8;32]>::try_from(value) Ok-arm (or len(value) == 32 + copy into a [u8; 32]) dominates the zero-rejecting big-endian import of that array" % ty, where=where(f))
+    # the curve-tagged importers: tag byte + exactly 32 key bytes.  The array handed to the key importer is an exact-length
+    # conversion of everything after the tag (`<[u8; 32]>::try_from(&bytes[1..])`, whose Ok arm means len == 33), or it is
+    # taken under a guard that pins the length; a prefix-taking accessor (first_chunk, get(..n), chunks) without such a
+    # guard lets trailing bytes through
+    for fk in ("SecretKeyEnum::from_be_bytes", "SecretKeyEnum::from_le_bytes"):
+        f = ctx.need_fn("E4.len", fk)
+        if f is None:
+            continue
+        ev = evaluate(f)
+        imp = [s_ for _, s_ in sorted(ev.sites.items()) if s_.callee[0] in ("SecretKey<C>::from_be_bytes", "SecretKey<C>::from_le_bytes")]
+        ctx.ob("E4.len.anchor", fk, bool(imp), "%s hands the key bytes to SecretKey::from_*_bytes (%d call(s))" % (fk, len(imp)), where=where(f))
+        for s_ in imp:
+            arr = B.peel(strip_sites(s_.args[0]))
+            ok = False
+            how = show(arr, 4)
+            # (a) Ok payload of an exact conversion of a suffix of the input
+            y = arr
+            if y.op == "field" and y.a[1] == "0" and y.a[0].op == "downcast" and y.a[0].a[1] == "Ok":
+                c_ = B.peel(y.a[0].a[0])
+                if c_.op == "call" and B.cname(c_) in ("TryFrom::try_from", "TryInto::try_into") and len(c_.a[1]) == 1:
+                    src = c_.a[1][0]
+                    sf = B.slice_form(src)
+                    whole = B.peel(src)
+                    if whole.op == "param" and whole.a[1] == "bytes":
+                        ok = True
+                    elif sf is not None and sf[0].op == "param" and sf[0].a[1] == "bytes" and B.lin_eq(sf[2], ("len", sf[0])) and B._lin(sf[1]) is not None and not any(B._lin(sf[1])[1].values()):
+                        ok = True
+            # (b) any way of taking the bytes under a guard that pins len(bytes) to a constant
+            if not ok:
+                for atom, pol in G.path_literals(ev, s_.bb, P, checks_only=True):
+                    if atom[0] == "atom" and atom[1] == "cmp" and (atom[2] if pol else R._NEG[atom[2]]) == "Eq" and any(R._is_len_of(x, "bytes") for x in (atom[3], atom[4])) and any(R._cval(x) is not None for x in (atom[3], atom[4])):
+                        ok = True
+            ctx.ob("E4.len", "%s@bb%d" % (fk, s_.bb), ok, "the 32 key bytes are an exact-length conversion of the input after the tag (or taken under len(bytes) == const): %s" % how, where=where(f, s_.bb))
     f = rs.get("ProofCommitment")
     if f is not None:
         ev = evaluate(f)
